@@ -65,6 +65,51 @@ pub fn small_len(r: &mut Rng) -> usize {
     }
 }
 
+/// RBSP -> NAL payload: an emulation-prevention byte 03 after every two zero bytes that are
+/// followed by a byte <= 3 (ITU-T H.264 / H.265 7.4.1), and no trailing zero.
+pub fn escape_rbsp(rbsp: &[u8]) -> Vec<u8> {
+    let mut out = Vec::with_capacity(rbsp.len() + 8);
+    let mut zeros = 0;
+    for &b in rbsp {
+        if zeros >= 2 && b <= 3 {
+            out.push(3);
+            zeros = 0;
+        }
+        out.push(b);
+        zeros = if b == 0 { zeros + 1 } else { 0 };
+    }
+    if out.last() == Some(&0) {
+        out.push(0x80);
+    }
+    out
+}
+
+/// A parameter-set payload shaped like a real one: profile / level bytes from the defined
+/// values, then bit soup with long runs of zero bits (which real SPS have, and which need
+/// emulation-prevention bytes), so that anything that starts PARSING parameter sets meets them.
+pub fn structured_sps_body(r: &mut Rng, hevc: bool, len: usize) -> Vec<u8> {
+    let mut rbsp = Vec::new();
+    if hevc {
+        rbsp.push(0x01 | ((r.below(8) as u8) << 1)); // vps id / max sub layers / nesting
+        rbsp.push(((r.below(4) as u8) << 6) | ((r.below(2) as u8) << 5) | *r.pick(&[1u8, 2, 3, 4, 9, 0, 31]));
+        rbsp.extend_from_slice(&[*r.pick(&[0x60u8, 0x40, 0x20, 0xff]), 0, 0, 0]);
+        rbsp.extend_from_slice(&[*r.pick(&[0x90u8, 0xb0, 0x00]), 0, 0, 0, 0, 0]);
+        rbsp.push(*r.pick(&[30u8, 63, 93, 120, 123, 150, 153, 156, 183, 186, 255, 0]));
+    } else {
+        rbsp.push(*r.pick(&[66u8, 77, 88, 100, 110, 122, 144, 244, 44, 83, 86, 118, 128, 138]));
+        rbsp.push(r.byte() & 0xfc);
+        rbsp.push(*r.pick(&[10u8, 11, 12, 13, 20, 21, 22, 30, 31, 32, 40, 41, 42, 50, 51, 52, 9, 0, 255]));
+    }
+    while rbsp.len() < len.max(6) {
+        match r.below(5) {
+            0 => rbsp.extend(std::iter::repeat(0u8).take(r.range(1, 6) as usize)),
+            1 => rbsp.push(1 << r.below(8)),
+            _ => rbsp.push(r.byte()),
+        }
+    }
+    escape_rbsp(&rbsp)
+}
+
 #[derive(Clone, Copy, Debug, PartialEq, Eq)]
 pub enum FrameKind {
     /// key frame carrying its configuration
@@ -112,7 +157,13 @@ pub fn h264_frame(r: &mut Rng, kind: FrameKind, body_len: usize, decorate: bool)
     match kind {
         FrameKind::KeyCfg => {
             let sps_len = if r.chance(1, 10) { r.range(0, 2) as usize } else { r.range(3, 40) as usize };
-            let sps = mk(r, 0x67, sps_len);
+            let sps = if r.chance(1, 4) {
+                let mut v = vec![0x67];
+                v.extend(structured_sps_body(r, false, sps_len));
+                v
+            } else {
+                mk(r, 0x67, sps_len)
+            };
             let pps = { let n = r.range(1, 12) as usize; mk(r, 0x68, n) };
             let order = r.below(6);
             if order == 0 {
@@ -196,7 +247,13 @@ pub fn h265_frame(r: &mut Rng, kind: FrameKind, body_len: usize, decorate: bool)
         FrameKind::KeyCfg => {
             let vps = { let n = r.range(1, 24) as usize; mk(r, 32, n) };
             let sps_n = if r.chance(1, 8) { r.range(0, 12) as usize } else { r.range(13, 48) as usize };
-            let sps = mk(r, 33, sps_n);
+            let sps = if r.chance(1, 4) {
+                let mut v = vec![33 << 1, 0x01];
+                v.extend(structured_sps_body(r, true, sps_n));
+                v
+            } else {
+                mk(r, 33, sps_n)
+            };
             let pps = { let n = r.range(1, 10) as usize; mk(r, 34, n) };
             let mut sets = vec![vps.clone(), sps.clone(), pps.clone()];
             if r.chance(1, 6) {
@@ -220,7 +277,9 @@ pub fn h265_frame(r: &mut Rng, kind: FrameKind, body_len: usize, decorate: bool)
             if r.chance(1, 6) {
                 nals.push(mk(r, 39, 5)); // prefix SEI
             }
-            let t = *r.pick(&[19u8, 20, 19, 20, 21]);
+            // IDR_W_RADL, IDR_N_LP, CRA and, now and then, the BLA types (16..18: random access
+            // points that the documented encode_video rule does NOT count as key frames)
+            let t = *r.pick(&[19u8, 20, 19, 20, 21, 19, 20, 21, 16, 17, 18]);
             nals.push(mk(r, t, body_len));
         }
         FrameKind::KeyNoCfg => {
@@ -237,7 +296,7 @@ pub fn h265_frame(r: &mut Rng, kind: FrameKind, body_len: usize, decorate: bool)
             nals.push(mk(r, 19, body_len));
         }
         FrameKind::Delta => {
-            let t = *r.pick(&[1u8, 0, 1, 8, 9]);
+            let t = *r.pick(&[1u8, 0, 1, 8, 9, 1, 0, 16, 17, 18, 2, 5]);
             nals.push(mk(r, t, body_len));
         }
     }
